@@ -494,6 +494,7 @@ type aggregate struct {
 	herr       []string
 	rechecks   int
 	recheckBad []string
+	recheckIdx []int
 	samples    []map[string]interface{}
 	otherViol  int
 	multi      int64
@@ -533,6 +534,7 @@ func (a *aggregate) add(wl workerLine) {
 		a.rechecks++
 		if wl.Recheck != wl.Hash {
 			a.recheckBad = append(a.recheckBad, fmt.Sprintf("run %d seed %d: %s vs %s", wl.Idx, wl.Seed, wl.Hash, wl.Recheck))
+			a.recheckIdx = append(a.recheckIdx, wl.Idx)
 		}
 	}
 	seen := map[string]bool{}
@@ -717,6 +719,7 @@ func checkMain(t *testing.T) {
 	searchWall := time.Since(start)
 
 	exit := 0
+	historyDependent := 0
 	if len(workerFailed) > 0 {
 		for _, m := range workerFailed {
 			fmt.Println("WORKER-FAILURE", m)
@@ -732,10 +735,23 @@ func checkMain(t *testing.T) {
 		exit = 2
 	}
 	if len(agg.recheckBad) > 0 {
-		for _, m := range agg.recheckBad {
-			fmt.Println("NONDETERMINISM", m)
+		// The in-process re-execution of a sampled run gave a different log. Either the simulator is
+		// not deterministic (fatal for everything it reports) or the code under test keeps state
+		// across runs in package-level variables (a lazily built table, a cache), which makes the
+		// second execution in one process legitimately different. Two fresh processes decide.
+		for k, m := range agg.recheckBad {
+			if k >= 3 {
+				break
+			}
+			h1, h2 := freshHash(prop, agg.recheckIdx[k]), freshHash(prop, agg.recheckIdx[k])
+			if h1 != "" && h1 == h2 {
+				fmt.Printf("note: run %d gives another log when executed a second time in the same process but the same log (%s) in fresh processes: the library keeps state across runs (%s)\n", agg.recheckIdx[k], h1, m)
+				historyDependent++
+				continue
+			}
+			fmt.Println("NONDETERMINISM", m, "fresh processes:", h1, h2)
+			exit = 2
 		}
-		exit = 2
 	}
 
 	// Process crashes and hangs inside a run (fatal runtime errors cannot be recovered in-process).
@@ -911,7 +927,8 @@ func checkMain(t *testing.T) {
 		"scenarios":                        agg.scen,
 		"outcomes":                         agg.outcomes,
 		"determinism_rechecks":             agg.rechecks,
-		"determinism_recheck_failures":     len(agg.recheckBad),
+		"determinism_recheck_failures":     len(agg.recheckBad) - historyDependent,
+		"history_dependent_runs":           historyDependent,
 		"violations_of_other_properties_seen_not_reported": agg.otherViol,
 		"known_findings_hit": knownHit,
 		"violation_reports":  vio,
@@ -972,9 +989,17 @@ func sanitize(s string) string {
 
 func determinismMain(t *testing.T) {
 	for i := 0; i < *fCount; i++ {
-		spec := specFor(*fSeed, *fProp, *fFrom+i)
+		idx := *fFrom + i
+		if *fStride == 0 {
+			idx = *fFrom // the same run again and again in one process (debugging history dependence)
+		}
+		spec := specFor(*fSeed, *fProp, idx)
+		spec.Trace = *fVerbose
 		res := Execute(t, spec)
-		fmt.Printf("D %s %d %s %s %d %q\n", *fProp, *fFrom+i, res.Hash, res.SchedHash, res.Steps, res.HarnessErr)
+		fmt.Printf("D %s %d %s %s %d %q\n", *fProp, idx, res.Hash, res.SchedHash, res.Steps, res.HarnessErr)
+		for _, l := range res.Trace {
+			fmt.Println("T", i, l)
+		}
 	}
 }
 
@@ -1229,4 +1254,17 @@ func writeFileAtomic(path string, data []byte) error {
 		return err
 	}
 	return os.Rename(tmp, path)
+}
+
+// freshHash executes one run in a fresh process and returns the hash of its event log ("" on failure).
+func freshHash(prop string, idx int) string {
+	cmd := exec.Command(selfExe(), "-test.run", "^TestVerif$", "-test.timeout", "10m", "-verif.mode", "determinism", "-verif.prop", prop,
+		"-verif.seed", strconv.FormatUint(*fSeed, 10), "-verif.from", strconv.Itoa(idx), "-verif.count", "1")
+	out, _ := cmd.Output()
+	for _, l := range strings.Split(string(out), "\n") {
+		if f := strings.Fields(l); len(f) >= 4 && f[0] == "D" {
+			return f[3]
+		}
+	}
+	return ""
 }
